@@ -44,6 +44,8 @@ from __future__ import annotations
 
 import collections
 import copy
+import inspect
+import operator
 import os
 import random
 import re
@@ -163,8 +165,9 @@ class Universe:
         for layer in LAYERS:
             raw = _raw_layer(PREFIX[layer], rng)
             self.layers[layer] = self._freeze(raw, layer, PREFIX[layer] + "*")
-        self.plain = {k: copy.deepcopy(v) for k, v in self.layers.items()}
-        self.canon = {k: canon(v) for k, v in self.layers.items()}
+        self.plain = {k: copy.deepcopy(_sans_iters(v)) for k, v in self.layers.items()}
+        self.canon = {k: canon(_sans_iters(v)) for k, v in self.layers.items()}
+        self.iter_states = self._iter_states()
         self.dirty = False
         for k in LAYERS:  # the snapshot itself must be faithful
             assert canon(self.plain[k]) == self.canon[k]
@@ -188,6 +191,15 @@ class Universe:
             return d
         return o
 
+    def _iter_states(self) -> dict[tuple[str, str], Any]:
+        return {(layer, k): _iter_state(v) for layer, d in self.layers.items()
+                for k, v in dict.items(d) if _is_iter_name(k)}
+
+    def consumed(self) -> list[tuple[str, str]]:
+        """(layer, name) of every iterator whose position moved since the snapshot."""
+        now = self._iter_states()
+        return [k for k, st in self.iter_states.items() if now.get(k) != st]
+
     def record(self, layer: str, label: str, method: str) -> None:
         subj, where = _stack_subject()
         self.events.append((layer, label, method, subj, where))
@@ -198,7 +210,7 @@ class Universe:
         """[(layer, description)] for every layer that is no longer equal to its snapshot."""
         out = []
         for layer in LAYERS:
-            now = self.layers[layer]
+            now = _sans_iters(self.layers[layer])
             same = canon(now) == self.canon[layer]
             try:
                 eq = self.plain[layer] == now
@@ -312,6 +324,24 @@ class Vivifying(dict):
 
 
 VIVIFY_RELS = ("dd", "viv", "counter", "chain")
+# one-shot iterators as caller data: reading them consumes them by Python semantics, so a
+# consumed iterator is reported as a diagnostic, not as a change of caller data
+ITER_RELS = ("gen", "it")
+
+
+def _is_iter_name(k: object) -> bool:
+    return isinstance(k, str) and k.split("_", 1)[-1] in ITER_RELS
+
+
+def _iter_state(o: Any) -> Any:
+    if inspect.isgenerator(o):
+        fr = o.gi_frame
+        return ("generator", inspect.getgeneratorstate(o), fr.f_lasti if fr else None)
+    return (type(o).__name__, operator.length_hint(o, -1))
+
+
+def _sans_iters(d: Any) -> dict[str, Any]:
+    return {k: v for k, v in dict.items(d) if not _is_iter_name(k)}
 
 
 def _raw_layer(p: str, rng: random.Random) -> dict[str, Any]:
@@ -350,6 +380,8 @@ def _raw_layer(p: str, rng: random.Random) -> dict[str, Any]:
         f"{p}_viv": Vivifying({"a": [1], "b": [2, 1]}),
         f"{p}_counter": collections.Counter({"a": 2, "b": 1}),
         f"{p}_chain": collections.ChainMap({"a": [1]}, {"b": [2, 1]}),
+        f"{p}_gen": (x for x in [3, 1, 2]),
+        f"{p}_it": iter(["b", "a", "c"]),
         f"{p}_s": f"hello, {p} world",
         f"{p}_i": 7 + k,
         f"{p}_f": 2.5,
@@ -561,6 +593,7 @@ class O1:
         self.last_status = ""
         self._good: dict[str, list[int]] = {}
         self._culprits: dict[tuple[str, str], str | None] = {}
+        self.consumed_samples: list[dict[str, Any]] = []
         self.reset()
 
     def reset(self) -> None:
@@ -699,7 +732,13 @@ class O1:
             if parsed:
                 ctx.nt(sorted(tpls.items()), api, mode, style, U.dataseed)
                 ctx.count("cases_with_container_flow")
-        if diffs or U.dirty:
+        cons = U.consumed()
+        if cons and record:
+            ctx.count("iterator_consumed(diagnostic)")
+            ctx.seen("iterator_consumers(diagnostic)", subject)
+            if len(self.consumed_samples) < 3:
+                self.consumed_samples.append({"templates": tpls, "consumed": cons})
+        if diffs or U.dirty or cons:
             self.reset()
         return keys
 
@@ -918,7 +957,7 @@ VIVIFY_FORMS = {
 def _vivify_cases(filters: list[tuple[str, str]]) -> Iterator[dict[str, Any]]:
     idx = 0
     for layer in LAYERS:
-        for rel in VIVIFY_RELS:
+        for rel in VIVIFY_RELS + ITER_RELS:
             P = f"{PREFIX[layer]}_{rel}"  # noqa: N806
             for tname, form in VIVIFY_FORMS.items():
                 idx += 1
@@ -954,6 +993,8 @@ def _run_o1(spec: dict[str, Any], ctx: Ctx) -> None:
             ctx.seen("filters_applied", case["subject"])
         if last is None or (o1.last_status == "ok" and not last.get("_ok")):
             last = dict(case, _ok=o1.last_status == "ok")
+    for smp in o1.consumed_samples:
+        ctx.sample({"kind": "iterator-consumed(diagnostic)", **smp}, force=True)
     if last:
         ctx.sample({"kind": kind, "subject": last["subject"], "templates": last["templates"],
                     "api": last["api"], "mode": last["mode"], "rendered_ok": last["_ok"],
@@ -1003,7 +1044,13 @@ def _selftest(ctx: Ctx) -> None:
         assert u.diff() and not u.events, "deep diff missed a bypassing mutation"
         ctx.count("monitor_selftest_detections")
     u = Universe("selftest", False)
-    assert copy.deepcopy(u.layers["env"]) == u.plain["env"] and not u.events
+    env_layer = FrozenDict(_sans_iters(u.layers["env"]))
+    assert copy.deepcopy(env_layer) == u.plain["env"] and not u.events
+    # one-shot iterators: consumption is seen (as a diagnostic), and is not a "diff"
+    assert not u.consumed()
+    next(u.layers["env"]["E_gen"])
+    next(u.layers["args"]["R_it"])
+    assert sorted(u.consumed()) == [("args", "R_it"), ("env", "E_gen")] and not u.diff()
     assert copy.copy(u.layers["env"]["E_nums"]) == u.plain["env"]["E_nums"] and not u.events
 
 
@@ -1177,13 +1224,20 @@ def profile_values(name: str, mask: int, falsy: dict[str, Any] | None):
 
 CONTEXTS = {
     "root": ["with-0", "with-1", "with-2", "with-3", "for-0", "for-2", "nested-0",
-             "tablerow-0", "withcap-0", "withdec-0", "translate-s", "translate-p"],
+             "tablerow-0", "withcap-0", "withdec-0", "translate-s", "translate-p",
+             "forblock-0", "withblock-0"],
     "include": ["plain", "kw", "inner", "bind", "bind-for", "alias", "alias-for",
                 "translate"],
     "render": ["with", "kw", "bind", "bind-for", "with+decoy", "kw+decoy", "alias",
                "alias-for", "translate"],
     "macro": ["with", "param", "default", "with+decoy", "translate"],
-    "extends": ["with-0", "with-2", "translate"],
+    "extends": ["with-0", "with-2", "translate", "around-for", "around-with"],
+    # the lookup site is in a partial rendered / macro called from inside an overriding
+    # block of an inheritance chain (leaf override, mid-chain override, block.super
+    # path); the base template around the block and the overriding block itself bind
+    # the same name with assign/capture, for, with and a counter: none of that may show
+    "chain": ["leaf-render", "leaf-render-kw", "leaf-macro", "mid-render", "mid-macro",
+              "super-render", "super-macro"],
     "lambda": ["root:" + f for f in ("map", "where", "reject", "find", "find_index", "has",
                                      "sort", "sort_natural", "sort_numeric", "uniq",
                                      "compact", "sum", "index")]
@@ -1191,7 +1245,9 @@ CONTEXTS = {
 }
 # variants added after the first calibration; the quick tier runs them with two of the
 # four api/mode combinations and only the nil/false falsy profiles
-LATE_VARIANTS = {"tablerow-0", "withcap-0", "withdec-0", "alias", "alias-for"}
+LATE_VARIANTS = {"tablerow-0", "withcap-0", "withdec-0", "alias", "alias-for",
+                 "forblock-0", "withblock-0", "around-for", "around-with"}
+NO_FALSY_CONTEXTS = ("lambda", "chain")
 # what a lambda filter prints when its parameter (bound to each item) wins inside the
 # lambda body; any outer binding of the same name gives something else
 LAMBDA_EXPR = {
@@ -1214,13 +1270,15 @@ LAMBDA_HELPERS = {"c10src": ["vB"], "c10objs": [{"k": 2, "v": "x"}, {"k": 1, "v"
 
 def variants_for(name: str, context: str) -> list[str]:
     if name == COUNT_NAME:
-        return [] if context == "lambda" else ["translate-count"]
+        return [] if context in NO_FALSY_CONTEXTS else ["translate-count"]
     return CONTEXTS[context]
 
 
 def site_count(context: str, variant: str, only: str | None, falsy: Any) -> int:
     if only or context == "lambda" or variant.startswith("translate"):
         return 1
+    if context == "chain":
+        return NSITES
     if falsy and falsy.get("reduced"):
         return len(REDUCED_SITES)
     return NSITES_EXT if falsy else NSITES
@@ -1234,7 +1292,7 @@ def site_count(context: str, variant: str, only: str | None, falsy: Any) -> int:
 ARGUMENT_VARIANTS = {
     ("render", "kw"), ("render", "bind"), ("render", "bind-for"),
     ("render", "alias"), ("render", "alias-for"),
-    ("macro", "param"), ("macro", "default"),
+    ("macro", "param"), ("macro", "default"), ("chain", "leaf-render-kw"),
 }
 
 
@@ -1300,6 +1358,51 @@ def build(name: str, mask: int, context: str, variant: str, only: str | None = N
         if context == "render":
             return {"root": "{% render 'p' %}", "p": inc + asg + T}
         return {"root": "{% macro m %}" + inc + asg + T + "{% endmacro %}{% call m %}"}
+    if variant in ("forblock-0", "withblock-0", "around-for", "around-with"):
+        # the block-scoped binding (loop variable / with) encloses a {% block %}; the
+        # local is assigned inside the block (rendered directly, or overridden)
+        if not B:
+            o = c = ""
+        elif "for" in variant:
+            o, c = src_setup + f"{{% for {N} in {src} %}}", "{% endfor %}"
+        else:
+            o, c = f"{{% with {N}: {vb} %}}", "{% endwith %}"
+        body = inc + asg + S
+        if context == "root":
+            return {"root": o + "{% block content %}" + body + "{% endblock %}" + c}
+        return {"root": "{% extends 'base' %}{% block content %}" + body + "{% endblock %}",
+                "base": o + "<{% block content %}base{% endblock %}>" + c}
+    if context == "chain":
+        where, how = variant.split("-", 1)
+        dloc = (f"{{% assign {N} = 'xL' %}}" if mask % 2 == 0
+                else f"{{% capture {N} %}}xL{{% endcapture %}}")
+        base = (dloc + f"{{% increment {N} %}}" * 5
+                + f"{{% assign c10d = 'xB' | split: ',' %}}{{% for {N} in c10d %}}"
+                + f"{{% with {N}: 'xO' %}}<{{% block content %}}base{{% endblock %}}>"
+                + "{% endwith %}{% endfor %}")
+        out: dict[str, str] = {"base": base}
+        if B:
+            wo, wc = f"{{% with {N}: {vb} %}}", "{% endwith %}"
+        else:
+            wo = wc = ""
+        inner = inc + asg + wo + S + wc
+        if how == "render":
+            call = "{% render 'p' %}"
+            out["p"] = inner
+        elif how == "render-kw":
+            call = f"{{% render 'p', {N}: {vb} %}}" if B else "{% render 'p' %}"
+            out["p"] = inc + asg + S
+        else:
+            call = "{% macro m %}" + inner + "{% endmacro %}{% call m %}"
+        body = (f"{{% assign {N} = 'xL' %}}{{% with {N}: 'xB' %}}" + call + "{% endwith %}")
+        override = "{% block content %}" + body + "{% endblock %}"
+        if where == "leaf":
+            out["root"] = "{% extends 'base' %}" + override
+        else:
+            out["mid"] = "{% extends 'base' %}" + override
+            out["root"] = "{% extends 'mid' %}" + (
+                "{% block content %}[{{ block.super }}]{% endblock %}" if where == "super" else "")
+        return out
     if variant.startswith("withcap") and L and vals["local"] == VAL["local"]:
         asg = f"{{% capture {N} %}}{VAL['local']}{{% endcapture %}}"
     if variant.startswith("withdec") and C:
@@ -1651,9 +1754,10 @@ def _run_o2(spec: dict[str, Any], ctx: Ctx) -> None:
         )
 
     variants = variants_for(name, context)
-    special = name == COUNT_NAME or context == "lambda"
+    special = name == COUNT_NAME or context in NO_FALSY_CONTEXTS
     subset_set = ("layer_subsets_count" if name == COUNT_NAME
-                  else "layer_subsets_lambda" if context == "lambda" else "layer_subsets")
+                  else f"layer_subsets_{context}" if context in NO_FALSY_CONTEXTS
+                  else "layer_subsets")
     for bi, base in enumerate(bases):
         if bi % spec["n"] != spec["i"]:
             continue
@@ -1672,7 +1776,7 @@ def _run_o2(spec: dict[str, Any], ctx: Ctx) -> None:
                 continue
             if tier != "quick":
                 apis = ALL_APIS
-            elif context == "lambda" or variant.startswith("translate"):
+            elif context in NO_FALSY_CONTEXTS or variant.startswith("translate"):
                 apis = [APIS[(bi + vi) % len(APIS)], APIS[(bi + vi + 1) % len(APIS)]]
             elif variant in LATE_VARIANTS:
                 apis = [APIS[(bi + vi) % len(APIS)]]
@@ -1714,7 +1818,7 @@ def _run_o2(spec: dict[str, Any], ctx: Ctx) -> None:
                 ran = False
                 for strict in stricts:
                     for vi, variant in enumerate(variants):
-                        if undocumented(variant, m):
+                        if undocumented(variant, m) or variant.startswith("around-"):
                             continue
                         if (fk == "elist" and m & BIT["block"]
                                 and (context, variant) in (("include", "bind"), ("include", "alias"))):
@@ -1879,8 +1983,9 @@ class O2Cached:
         inner_cls = _make_loader_class()
 
         class MatterCachingDictLoader(CachingDictLoader):
-            def __init__(self, templates: dict[str, str], matter: dict[str, Any]):
-                super().__init__(templates)
+            def __init__(self, templates: dict[str, str], matter: dict[str, Any],
+                         auto_reload: bool):
+                super().__init__(templates, auto_reload=auto_reload)
                 self.matter = matter
 
             def get_source(self, env, template_name, *, context=None, **kwargs):  # noqa: ANN001, ANN003, ANN202
@@ -1890,8 +1995,8 @@ class O2Cached:
                 return TemplateSource(source, name, uptodate, self.matter.get(template_name))
 
         class MatterCachingFileSystemLoader(CachingFileSystemLoader):
-            def __init__(self, search_path: str, matter: dict[str, Any]):
-                super().__init__(search_path)
+            def __init__(self, search_path: str, matter: dict[str, Any], auto_reload: bool):
+                super().__init__(search_path, auto_reload=auto_reload)
                 self.matter = matter
 
             def get_source(self, env, template_name, *, context=None, **kwargs):  # noqa: ANN001, ANN003, ANN202
@@ -1906,17 +2011,19 @@ class O2Cached:
                 )
                 return TemplateSource(source, name, uptodate, self.matter.get(template_name))
 
-        def make(kind: str, templates: dict[str, str], matter: dict[str, Any]):  # noqa: ANN202
+        def make(kind: str, templates: dict[str, str], matter: dict[str, Any],  # noqa: ANN202
+                 auto_reload: bool = True):
             if kind == "cdict":
-                return MatterCachingDictLoader(templates, matter)
+                return MatterCachingDictLoader(templates, matter, auto_reload)
             if kind == "cchoice":
-                return CachingChoiceLoader([inner_cls({}, {}), inner_cls(templates, matter)])
+                return CachingChoiceLoader(
+                    [inner_cls({}, {}), inner_cls(templates, matter)], auto_reload=auto_reload)
             for fn in os.listdir(self.tmp):
                 os.unlink(os.path.join(self.tmp, fn))
             for tname, src in templates.items():
                 with open(os.path.join(self.tmp, tname), "w", encoding="utf-8") as f:
                     f.write(src)
-            return MatterCachingFileSystemLoader(self.tmp, matter)
+            return MatterCachingFileSystemLoader(self.tmp, matter, auto_reload)
 
         self.make_loader = make
 
@@ -1963,7 +2070,8 @@ class O2Cached:
         other_caller = {"c10g": 1}
         before = copy.deepcopy((matter, tg_first, tg_other, other_caller))
         env = self.env(name, bool(base & BIT["env-global"]))
-        env.loader = self.make_loader(kind, tpls, matter)
+        auto_reload = bool(case.get("auto_reload", True))
+        env.loader = self.make_loader(kind, tpls, matter, auto_reload)
         keys: list[str] = []
         nsites = 0
         self.view = []
@@ -1976,7 +2084,7 @@ class O2Cached:
                 ctx.violation(key, what, dict(
                     {"o": "O2c", "name": name, "mask": base, "context": context,
                      "variant": variant, "loader": kind, "api": api, "pattern": pattern,
-                     "only": only, "layers_present_at_first_load": sorted(_layers(base)),
+                     "auto_reload": auto_reload, "only": only, "layers_present_at_first_load": sorted(_layers(base)),
                      "templates": tpls, "matter": matter}, **extra))
 
         def load(tname: str, g: dict[str, Any] | None):  # noqa: ANN202
@@ -2029,11 +2137,10 @@ class O2Cached:
                 if t is prev:
                     ctx.count("cache_hits")
             prev = t
-            # the template-global layer as the latest caller passed it, and as the first
-            # caller passed it (which of the two a shared cached template shows is C14's
-            # question; here only the rank of the other layers is judged)
+            # each render follows its own get_template() call, so the template-global
+            # layer is what that (the latest) caller passed: a cache hit must not keep an
+            # earlier caller's template globals (overlapping callers are C14's question)
             t_latest = {"template-global": g[name]} if g else {}
-            t_first = {"template-global": "vT"} if tg_first else {}
             for with_r in (True, False):
                 args = {name: "vR"} if with_r else {}
                 others = (_layers(base) - {"template-global", "render-arg"}) | (
@@ -2053,7 +2160,7 @@ class O2Cached:
                          {"load": k})
                     continue
                 accept = []
-                for tl in (t_latest, t_first):
+                for tl in (t_latest,):
                     exp = expected_layer(name, others | set(tl))
                     accept.append((exp, tl.get("template-global", "vT")))
                 for skind, text in found:
@@ -2071,8 +2178,6 @@ class O2Cached:
                             ok = text == want
                         if ok:
                             good = True
-                            if ai == 1 and wants[0] != want and record:
-                                ctx.count("cached_first_callers_globals_shown(diagnostic)")
                             break
                     self.view.append(
                         f"get_template #{k} (globals={g}) render(R={with_r}) site={skind}: "
@@ -2081,11 +2186,15 @@ class O2Cached:
                         continue
                     exp = accept[0][0]
                     actual = "template-global" if text == "xO" else classify(skind, text, name)
+                    if actual == "template-global" and exp == "template-global":
+                        actual = "template-global of an earlier caller"
+                    elif actual == "template-global" and k > 1 and pattern != "same":
+                        actual = "template-global of an earlier caller"
                     viol(
                         f"precedence:{exp or 'undefined'} shadowed-by {actual}{suffix}",
                         f"{{{{ {name} }}}} at site '{skind}' after get_template #{k} of 'root' "
-                        f"through a caching {kind} matter loader ({api}, later loads pass "
-                        f"{pattern} globals) with layers {sorted(others | set(t_latest))} printed "
+                        f"through a caching {kind} matter loader ({api}, auto_reload={auto_reload}, "
+                        f"later loads pass {pattern} globals) with layers {sorted(others | set(t_latest))} printed "
                         f"{text!r} (layer {actual}); documented order gives layer {exp} "
                         f"({wants[0] if wants[0] is not None else 'a date'!r})",
                         {"load": k, "with_render_arg": with_r, "site": skind, "printed": text,
@@ -2123,8 +2232,11 @@ def _cached_cases(name: str, base: int, tier: str) -> Iterator[dict[str, Any]]:
                 else:
                     cvs = CACHED_CONTEXTS
                 for context, variant in cvs:
-                    yield {"name": name, "mask": base, "context": context, "variant": variant,
-                           "loader": kind, "api": api, "pattern": pattern}
+                    ars = [(base + li + ai + pi) % 2 == 0] if tier == "quick" else [True, False]
+                    for ar in ars:
+                        yield {"name": name, "mask": base, "context": context,
+                               "variant": variant, "loader": kind, "api": api,
+                               "pattern": pattern, "auto_reload": ar}
 
 
 def _run_o2c(spec: dict[str, Any], ctx: Ctx) -> None:
@@ -2139,6 +2251,8 @@ def _run_o2c(spec: dict[str, Any], ctx: Ctx) -> None:
             for case in _cached_cases(name, base, spec["tier"]):
                 o.execute(case)
                 ctx.seen("cached_loaders", case["loader"] + ":" + case["api"])
+                ctx.seen("cached_loader_modes",
+                         f"{case['loader']}:auto_reload={case['auto_reload']}:{case['pattern']}")
                 ctx.seen("cached_contexts", case["context"] + ":" + case["pattern"])
                 last = case
             for m in (base, base | BIT["render-arg"]):
@@ -2172,6 +2286,7 @@ def shards(tier: str, seed: int) -> list[dict[str, Any]]:  # noqa: ARG001
             for i in range(n):
                 specs.append({"kind": "layers", "name": name, "context": context, "i": i, "n": n})
         specs.append({"kind": "layers", "name": name, "context": "lambda", "i": 0, "n": 1})
+        specs.append({"kind": "layers", "name": name, "context": "chain", "i": 0, "n": 1})
     specs.append({"kind": "layers", "name": COUNT_NAME, "context": "all", "i": 0, "n": 1})
     ncached = 2 if tier == "quick" else 6
     for name in NAMES:
@@ -2207,6 +2322,7 @@ def floors(tier: str) -> dict[str, int]:
         # every subset again on the 2nd and 3rd get_template() through caching matter loaders
         "set:layer_subsets_cached": len(NAMES) * 128,
         "set:cached_loaders": len(CACHED_LOADERS) * len(CACHED_APIS),
+        "set:cached_loader_modes": len(CACHED_LOADERS) * 2 * len(CACHED_PATTERNS),
         "set:cached_contexts": len(CACHED_CONTEXTS) * len(CACHED_PATTERNS),
         "cached_reloads": 6000,
         "cache_hits": 6000,
@@ -2217,6 +2333,7 @@ def floors(tier: str) -> dict[str, int]:
         "lambda_site_checks": 5000,
         "set:layer_subsets_count": 128,
         "set:layer_subsets_lambda": 192,
+        "set:layer_subsets_chain": len(NAMES) * 128,
         "tagname_site_checks": 300,
         "set:tagnames": len(TAGNAMES),
         # the partial's own loader matter as a layer
